@@ -53,7 +53,11 @@ type Digest struct {
 	// SyncGuarded: entries of sync.Map / atomic.Value / atomic.Pointer are recorded as
 	// guarded (not compared) instead of as leaves; set for the digest of an instance.
 	SyncGuarded bool
-	seen        map[seenKey]string
+	// Pools: every sync.Pool met during the walk (path -> pool). Its contents cannot be listed
+	// (no iteration; per-P caches), so the frame condition cannot see a pooled object; the checker
+	// lists the pools in the evidence and empties them between two sequences (see DrainPool).
+	Pools map[string]*sync.Pool
+	seen  map[seenKey]string
 }
 
 type seenKey struct {
@@ -62,7 +66,7 @@ type seenKey struct {
 }
 
 func NewDigest() *Digest {
-	return &Digest{Leaves: map[string]string{}, Guarded: map[string]string{}, Skipped: map[string]int{}, GTypes: map[string]int{}, Walked: map[string]int{}, OnceInit: map[string]bool{}, seen: map[seenKey]string{}}
+	return &Digest{Leaves: map[string]string{}, Guarded: map[string]string{}, Skipped: map[string]int{}, GTypes: map[string]int{}, Walked: map[string]int{}, OnceInit: map[string]bool{}, Pools: map[string]*sync.Pool{}, seen: map[seenKey]string{}}
 }
 
 const modulePrefix = "github.com/zitadel/oidc/v3"
@@ -78,6 +82,24 @@ var exportedOnly = map[string]bool{
 var fullWalk = map[string]bool{"bytes.Buffer": true, "strings.Builder": true, "errors.errorString": true, "fmt.wrapError": true, "fmt.wrapErrors": true, "errors.joinError": true}
 
 var timeType = reflect.TypeOf(time.Time{})
+var poolType = reflect.TypeOf(sync.Pool{})
+
+// DrainPool empties a sync.Pool: with New switched off, Get is called until it returns nil.
+// Complete only when the process runs on ONE P (GOMAXPROCS(1), as the worker children do): Get
+// reaches the private slot of the current P, the shared lists of all Ps and the victim cache,
+// but not the private slot of another P. Returns the number of objects taken out.
+func DrainPool(p *sync.Pool) int {
+	saved := p.New
+	p.New = nil
+	n := 0
+	for ; n < 1<<20; n++ {
+		if p.Get() == nil {
+			break
+		}
+	}
+	p.New = saved
+	return n
+}
 
 type structPolicy int
 
@@ -215,6 +237,9 @@ func (d *Digest) walk(p string, v reflect.Value, g bool, depth int) {
 				return
 			case polSkip:
 				d.Skipped[et.String()]++
+				if et == poolType {
+					d.Pools[p] = (*sync.Pool)(v.UnsafePointer())
+				}
 				return
 			}
 		}
@@ -247,6 +272,9 @@ func (d *Digest) walk(p string, v reflect.Value, g bool, depth int) {
 		switch pol {
 		case polSkip:
 			d.Skipped[t.String()]++
+			if t == poolType && v.CanAddr() {
+				d.Pools[p] = (*sync.Pool)(unsafe.Pointer(v.UnsafeAddr()))
+			}
 			return
 		case polSyncMap:
 			d.walkSyncMap(p, v, g, depth)
